@@ -14,6 +14,9 @@ mod shared;
 static A: vcore::alloc::Counting = vcore::alloc::Counting;
 
 fn main() {
+    // a refused allocation makes std print a symbolised backtrace (~1 s) when RUST_BACKTRACE is set: switch it off
+    // before anything can cache the setting (single-threaded here)
+    unsafe { std::env::set_var("RUST_BACKTRACE", "0") };
     let ctx = vcore::Ctx::from_args();
     match ctx.id.as_str() {
         "C13" => c13::run(&ctx),
